@@ -527,7 +527,7 @@ impl Archive {
                 } else {
                     // If block table comes before hash table, calculate differently
                     let file_size = self.reader.get_ref().metadata()?.len();
-                    (file_size - hash_table_offset) as usize
+                    file_size.saturating_sub(hash_table_offset) as usize
                 };
 
                 if available_space < uncompressed_size {
@@ -801,6 +801,20 @@ impl Archive {
         &self.path
     }
 
+    /// Fail unless `len` bytes at absolute position `pos` lie inside the archive file.
+    ///
+    /// Sizes and offsets come from (possibly damaged) tables; checking them against the
+    /// file length keeps a bad value from driving a huge allocation.
+    fn ensure_in_file(&mut self, pos: u64, len: u64) -> Result<()> {
+        let file_len = self.reader.get_ref().metadata()?.len();
+        if pos > file_len || len > file_len - pos {
+            return Err(Error::invalid_format(format!(
+                "Data at offset {pos} with size {len} extends beyond the end of the archive file ({file_len} bytes)"
+            )));
+        }
+        Ok(())
+    }
+
     /// Get the hi-block table if present (v2+ archives)
     pub fn hi_block_table(&self) -> Option<&HiBlockTable> {
         self.hi_block_table.as_ref()
@@ -824,9 +838,16 @@ impl Archive {
                 return Ok(true); // Empty table is valid
             }
 
+            // Positions and sizes come from the header: a table that does not fit into the
+            // file cannot match its digest (and must not drive the allocation below)
+            let stream_len = self.reader.seek(SeekFrom::End(0))?;
+            let start = self.archive_offset.saturating_add(offset);
+            if start > stream_len || size > stream_len - start {
+                return Ok(false);
+            }
+
             // Read raw table data
-            self.reader
-                .seek(SeekFrom::Start(self.archive_offset + offset))?;
+            self.reader.seek(SeekFrom::Start(start))?;
             let mut table_data = vec![0u8; size as usize];
             match self.reader.read_exact(&mut table_data) {
                 Ok(_) => {
@@ -1635,6 +1656,7 @@ impl Archive {
 
         if file_info.is_single_unit() || !file_info.is_compressed() {
             // Single unit or uncompressed file - read directly
+            self.ensure_in_file(file_info.file_pos, file_info.compressed_size)?;
             let mut data = vec![0u8; file_info.compressed_size as usize];
             self.reader.read_exact(&mut data)?;
 
@@ -2116,6 +2138,7 @@ impl Archive {
 
         if file_info.is_single_unit() || !file_info.is_compressed() {
             // Single unit or uncompressed file - read directly
+            self.ensure_in_file(file_info.file_pos, file_info.compressed_size)?;
             let mut data = vec![0u8; file_info.compressed_size as usize];
             self.reader.read_exact(&mut data)?;
 
@@ -2199,6 +2222,7 @@ impl Archive {
             file_info.file_pos
         );
 
+        self.ensure_in_file(file_info.file_pos, offset_table_size as u64)?;
         let mut offset_data = vec![0u8; offset_table_size];
         self.reader.read_exact(&mut offset_data).map_err(|e| {
             log::error!("Failed to read offset table: {}", e);
@@ -2301,6 +2325,10 @@ impl Archive {
                 .seek(SeekFrom::Start(file_info.file_pos + sector_start))?;
 
             // Ensure our buffer is large enough
+            self.ensure_in_file(
+                file_info.file_pos + sector_start,
+                sector_size_compressed as u64,
+            )?;
             if sector_size_compressed > sector_buffer.len() {
                 sector_buffer.resize(sector_size_compressed, 0);
             }
